@@ -46,7 +46,7 @@ def getSingleDistrict (G : MG Name) : Except Err (List Name) :=
   | _ => .error (.internal "RuntimeError")
 
 /-- `ordering.index(child)`; `ValueError` when absent -/
-def indexOf? (order : List Name) (v : Name) : Except Err Nat :=
+def orderIndex? (order : List Name) (v : Name) : Except Err Nat :=
   if v ∈ order then .ok (order.takeWhile (· ≠ v)).length else .error (.internal "ValueError")
 
 /-- `_is_observational_marginal(estimand)` (`fix:` F3): nested sums over a plain joint `P(…)`
@@ -60,7 +60,7 @@ def isObsMarginal : Expr → Bool
 predecessors, read off the carried estimand; written `P(child | predecessors)` when the estimand is (a
 marginal of) the observational joint -/
 def pParents (order : List Name) (est : Expr) (child : Name) : Except Err Expr := do
-  let i ← indexOf? order child
+  let i ← orderIndex? order child
   if isObsMarginal est then pure (pCond child (order.take i))
   else div (sumSafe est (order.drop (i + 1))) (sumSafe est (order.drop i))
 
